@@ -55,7 +55,7 @@ func checkC18(c *Ctx) {
 		r.Count("C18-K1-bounds-sites", res.nBounds)
 		r.Expect("C18-K1-bounds-sites", 10)
 	}
-	byteOrderRule(c, "C18-K10", []string{"dhcpv4/nclient4"}, 2)
+	byteOrderRule(c, "C18-K10", []string{"dhcpv4/nclient4"}, 1)
 	c18Reader(c, fn, "C18")
 	c18Writer(c)
 	c18ChecksumShape(c)
